@@ -284,6 +284,8 @@ class Exec:
             v = self.ev(x, cur)
             t = self.truth(v, cur)
             vals.append((v, t))
+            if (t is False and isinstance(e.op, ast.And)) or (t is True and isinstance(e.op, ast.Or)):
+                break       # python short-circuits: the remaining operands are not evaluated
             if k < len(e.values) - 1:
                 nxt = cur.fork()
                 g = t if isinstance(e.op, ast.And) else NOT(t)
@@ -443,6 +445,7 @@ class Exec:
             elif on == 'BitOr': r = SSet(lambda x: OR(pa_.member(x), pb.member(x)), pa_.elem)
             elif on == 'Sub': r = SSet(lambda x: AND(pa_.member(x), NOT(pb.member(x))), pa_.elem)
             else: raise Unsupported('set op ' + on)
+            self.np.card_lemmas(on, pa_, pb, r, st)
             return st.alloc(r)
         if isinstance(pa_, SList) and isinstance(pb, SList) and on == 'Add':
             return st.alloc(self.np.list_concat(pa_, pb))
